@@ -156,6 +156,15 @@ int main(int argc, char** argv){ vr::parse(argc, argv); long bad = 0;
     correlate_rows<gray32f_pixel_t>(view(b), ker, view(b), o);                  // in place
     for (int y = 0; y < 2; y++) for (int x = 0; x < W; x++) if (view(b)(x, y)[0] != view(ref)(x, y)[0])
       REPRODUCED("in-place correlate_rows (width %d, kernel size %d centre %d, option %d): dst(%d,%d) = %g, with a separate destination %g", W, K, c, opt, x, y, (double)view(b)(x, y)[0], (double)view(ref)(x, y)[0]); }
+  // source layout different from the accumulator layout (bgr8 source, rgb32f accumulator): every colour is filtered on its own, also at the replicated border (extend_constant)
+  for (int W = 2; W <= 5; W++) for (int K = 2; K <= 3; K++) for (int c = 0; c < K; c++) for (int opt = 0; opt < 2; opt++) { boundary_option o = opt ? boundary_option::extend_constant : boundary_option::extend_zero;
+    bgr8_image_t s8(W, 1); rgb32f_image_t d(W, 1); for (int x = 0; x < W; x++) view(s8)(x, 0) = bgr8_pixel_t((unsigned char)(200 - 7 * x), (unsigned char)(40 + x), (unsigned char)(3 + 11 * x));   // (blue, green, red) in memory order
+    std::vector<float> kv(K); for (int i = 0; i < K; i++) kv[i] = float(i + 1); kernel_1d<float> ker(kv.begin(), K, c);
+    correlate_rows<rgb32f_pixel_t>(const_view(s8), ker, view(d), o);
+    for (int x = 0; x < W; x++) { float wr = 0, wb = 0; for (int i = 0; i < K; i++) { int sx = x - c + i; if (sx < 0 || sx >= W) { if (!opt) continue; sx = sx < 0 ? 0 : W - 1; }
+        wr += kv[i] * (float)get_color(view(s8)(sx, 0), red_t()); wb += kv[i] * (float)get_color(view(s8)(sx, 0), blue_t()); }
+      if ((float)get_color(view(d)(x, 0), red_t()) != wr || (float)get_color(view(d)(x, 0), blue_t()) != wb)
+        REPRODUCED("bgr8 source / rgb32f accumulator, %s, width %d kernel size %d centre %d: dst(%d) red = %g blue = %g, expected red = %g blue = %g", opt ? "extend_constant" : "extend_zero", W, K, c, x, (double)get_color(view(d)(x, 0), red_t()), (double)get_color(view(d)(x, 0), blue_t()), (double)wr, (double)wb); } }
   if (bad) REPRODUCED("%ld outputs: output_zero / output_ignore did not correlate exactly the outputs whose window fits inside the row", bad);
   NOT_REPRODUCED("border handling of output_zero / output_ignore matches the definition on the sampled sizes"); }
 '''
